@@ -4,7 +4,7 @@ from pyvc.contracts import contract
 contract("environment:JSONPathEnvironment.compile", trusted=True,
     requires=["wf_env(self)", "is_str(query)"],
     defines=["result == compile_outcome(self, query)"],
-    ensures=["wf_query(result, self)"],
+    ensures=["isinstance(result, JSONPathQuery)", "result.env == self", "wf_query(result, self)"],
     raises=["JSONPathError"], props=["C03", "C04", "C05", "C13"],
     note="lexer + Pratt parser: outside the pyvc subset (DESIGN 4 C03/C04). Assumed here: compile is a function of "
          "(environment, text) [C14 frame contracts], returns a well-formed query [bounded: wf_query checked on every "
@@ -34,7 +34,7 @@ contract("environment:JSONPathEnvironment._function_return_type",
     unfold=["wf_env", "wf_registry", "wf_func"],
     ensures=["result == func_return(expr, self)"], raises=[], props=["C05"])
 
-contract("environment:JSONPathEnvironment.check_well_typedness",
+contract("environment:JSONPathEnvironment.check_well_typedness", heavy=True,
     requires=["wf_env(self)", "wf_func(func)", "is_arr(args)",
               "all(isinstance(a, Expression) and wf_expr(a, self) for a in seq(args))", "isinstance(token, Token)"],
     unfold=["wf_func"],
@@ -52,7 +52,7 @@ contract("environment:JSONPathEnvironment.validate_function_extension_signature"
                 ("JSONPathTypeError", "has_key(self.function_extensions, str_of(token.value)) and (len(args) != len(get(self.function_extensions, str_of(token.value)).arg_types) or any(not arg_ok(seq(get(self.function_extensions, str_of(token.value)).arg_types)[j], seq(args)[j], self) for j in range(len(args))))")],
     props=["C05"])
 
-contract("parse:Parser._raise_for_non_comparable_function",
+contract("parse:Parser._raise_for_non_comparable_function", heavy=True,
     requires=["wf_env(self.env)", "isinstance(expr, Expression)", "wf_expr(expr, self.env)", "isinstance(token, Token)"],
     unfold=["wf_env", "wf_registry", "wf_func"],
     raises_iff=[("JSONPathTypeError", "(isinstance(expr, FilterQuery) and not singular(seq(expr.query.segments), len(expr.query.segments))) or (isinstance(expr, FunctionExtension) and has_key(self.env.function_extensions, str_of(expr.name)) and not (func_return(expr, self.env) == ExpressionType.VALUE))")],
